@@ -8,6 +8,7 @@ package c02
 import (
 	"bytes"
 	"crypto/sha1"
+	"crypto/sha256"
 	"fmt"
 	"math/big"
 	"strings"
@@ -33,6 +34,7 @@ type RootSpec struct {
 	// change the verdict (0 = absent)
 	PathLen  int // n > 0: pathLenConstraint n-1
 	NameCons int // 1: permitted dNSName subtree the leaf is outside of; 2: excluded subtree the leaf is inside
+	Serial   int // > 0: this small serial number (collisions on (issuer, serial) between different certificates); 0: unique
 }
 
 type CASpec struct {
@@ -59,6 +61,8 @@ type CASpec struct {
 	// root that has since been cross-certified. [..., old self-signed, cross-certificate, ...] is a valid order.
 	OldSelf        bool
 	OldSelfTrusted bool
+	Serial         int // > 0: this small serial number; 0: unique
+	Validity       int // 0: valid around pki.Epoch; 1: expired long ago; 2: not valid yet (no clause about issuers' validity)
 }
 
 type LeafSpec struct {
@@ -76,6 +80,9 @@ type LeafSpec struct {
 	AKI       bool
 	BadAKI    bool // with AKI: an identifier that matches no certificate anywhere
 	SigAlg    int
+	Serial    int   // > 0: this small serial number; 0: unique
+	NBOff     int64 // NotBefore = NotAfter + NBOff seconds (may be positive: inverted validity); 0: NotAfter - 3 months
+	Bulk      int   // > 0: a padding extension of that many octets (large request bodies)
 }
 
 type Perturb struct {
@@ -273,7 +280,7 @@ func issueMemo(parent *pki.Cert, t pki.Template, label string) *pki.Cert {
 	} else {
 		t.Issuer = t.Subject
 	}
-	id := fmt.Sprintf("%s|%s|%x", pid, signer.Name, t.TBS(signer))
+	id := fmt.Sprintf("%s|%s|%x", pid, signer.Name, sha256.Sum256(t.TBS(signer)))
 	memoMu.Lock()
 	defer memoMu.Unlock()
 	if c, ok := memo[id]; ok {
@@ -316,6 +323,7 @@ func (w *world) register(c *pki.Cert, m *meta) {
 }
 
 var oidCritUnknown = []int{1, 3, 6, 1, 4, 1, 55555, 7}
+var oidBulk = []int{1, 3, 6, 1, 4, 1, 55555, 20}
 
 // nameConstraints builds a critical NameConstraints extension: kind 1 permits only a dNSName subtree
 // the generated leaf (c02-leaf.example.com) lies outside of, kind 2 excludes the subtree it lies in.
@@ -363,7 +371,13 @@ func poisonExt(kind string) (pki.Ext, bool) {
 func build(c *Case) *world {
 	w := &world{metas: map[*pki.Cert]*meta{}, used: map[string]int{}, keyOrd: map[*keys.Key]int{}, c: c}
 	serial := int64(1000)
-	next := func() *big.Int { serial++; return big.NewInt(serial) }
+	next := func(small int) *big.Int {
+		serial++
+		if small > 0 {
+			return big.NewInt(int64(small))
+		}
+		return big.NewInt(serial)
+	}
 	nb, na := pki.Epoch.AddDate(-5, 0, 0), pki.Epoch.AddDate(20, 0, 0)
 
 	// roots
@@ -377,7 +391,7 @@ func build(c *Case) *world {
 			k = w.allocKey(r.Kind)
 		}
 		n := &node{label: fmt.Sprintf("root%d", i), key: k, subject: cn(fmt.Sprintf("C02 Root %d", i), r.UTF8), role: "root", v1: r.V1}
-		t := pki.Template{Serial: next(), Subject: n.subject, NotBefore: nb, NotAfter: na, Key: k}
+		t := pki.Template{Serial: next(r.Serial), Subject: n.subject, NotBefore: nb, NotAfter: na, Key: k}
 		if r.V1 {
 			t.Version = 1
 		} else {
@@ -430,7 +444,13 @@ func build(c *Case) *world {
 				pn = w.nodes[parent]
 				pc = pn.certs[0]
 			}
-			t := pki.Template{Serial: next(), Subject: n.subject, NotBefore: nb, NotAfter: na, Key: k}
+			t := pki.Template{Serial: next(s.Serial), Subject: n.subject, NotBefore: nb, NotAfter: na, Key: k}
+			switch s.Validity {
+			case 1:
+				t.NotBefore, t.NotAfter = pki.Epoch.AddDate(-15, 0, 0), pki.Epoch.AddDate(-10, 0, 0)
+			case 2:
+				t.NotBefore, t.NotAfter = pki.Epoch.AddDate(30, 0, 0), pki.Epoch.AddDate(40, 0, 0)
+			}
 			var ekus []string
 			cm := &meta{pathLen: -1}
 			switch s.Role {
@@ -535,8 +555,11 @@ func build(c *Case) *world {
 	if !ls.Node {
 		in := w.nodes[cur]
 		lk := w.allocKey(ls.Kind)
-		t := pki.Template{Serial: next(), Subject: cn("c02-leaf", false), NotAfter: pki.Epoch.Add(time.Duration(ls.NotAfter) * time.Second), Key: lk}
+		t := pki.Template{Serial: next(ls.Serial), Subject: cn("c02-leaf", false), NotAfter: pki.Epoch.Add(time.Duration(ls.NotAfter) * time.Second), Key: lk}
 		t.NotBefore = t.NotAfter.AddDate(0, -3, 0)
+		if ls.NBOff != 0 {
+			t.NotBefore = t.NotAfter.Add(time.Duration(ls.NBOff) * time.Second)
+		}
 		var exts []pki.Ext
 		if ls.CA {
 			exts = append(exts, pki.BasicConstraints(true, -1, true), pki.KeyUsage(pki.KUKeyCertSign, pki.KUCRLSign))
@@ -566,6 +589,9 @@ func build(c *Case) *world {
 				seen[x] = true
 				exts = append(exts, pki.Ext{OID: extraOIDs[x], Value: derx.Octets([]byte{byte(x)})})
 			}
+		}
+		if ls.Bulk > 0 {
+			exts = append(exts, pki.Ext{OID: oidBulk, Value: derx.Octets(make([]byte, ls.Bulk))})
 		}
 		if r := mod(ls.ExtRot, len(exts)); r > 0 {
 			exts = append(append([]pki.Ext{}, exts[r:]...), exts[:r]...)
